@@ -126,6 +126,37 @@ def _setup2():
     return r, cs
 
 
+def c10_answer_after_many_other_requests(n_between):
+    """a sender waits for its answer while n_between other requests are routed and sent (never answered); then its answer
+    arrives: it must still reach the sender.  (The bulk is not part of the recorded trace.)"""
+    r, c = _setup()
+    w = r.w
+    try:
+        r.do({"a": "send", "k": 1, "app": "a1", "realm": "r1", "timeout": 100000, "pick": "first"})
+        first = [e["m"] for st in r.steps for e in st["out"] if e["ev"] == "tx" and e["m"]["cmd"] == "APP" and e["m"]["req"]]
+        assert len(first) == 1, "setup: the first request was not sent"
+        app = w.apps["a1"]
+        for i in range(n_between):
+            req = msgs.ccr(nt.NODE_HOST, dest_realm="r1", hbh=0, e2e=0, app=0)
+            req.header.end_to_end_identifier = w.node.end_to_end_seq.next_sequence()
+            conn, msg = w.node.route_request(app, req)
+            w.node.send_message(conn, msg)
+            if i % 256 == 255:
+                w.run()
+                r.vcs[c].tx.clear()
+                r.vcs[c].tx_frames.clear()
+                del w.s.obs[:]
+        w.run()
+        del w.s.obs[:]
+        r._mark = 0
+        m = first[0]
+        r.do({"a": "feed", "c": c, "ms": [nt.M("APP", False, m["hbh"], m["e2e"], app=m["app"], oh="p1.r1", rc=2001)]})
+        r.do({"a": "tick"})
+        return {"steps": r.steps, "exits": [(n, e) for n, e, _ in w.s.exits], "params": nt.model_params(r.full_cfg, max_conn=6)}
+    finally:
+        r.close()
+
+
 CFG3 = {"node": {"idle": 2, "dwa": 4, "cer": 4, "cea": 4, "wakeup": 1, "retx": 4},
         "peers": [peer_cfg("p1"), peer_cfg("p2")], "apps": [app_cfg("a1", 4, peers=["p1", "p2"], handler="answer")]}
 
